@@ -457,6 +457,21 @@ def plain_op(op):
     return "(OUpd %s)" % nat(op[1]) if op[0] == "U" else "(OAbs %s)" % nat(op[1])
 
 
+def has_structural_tie(p):
+    """under the heuristic, some non-absorbing state has two maximal actions with different successor sets
+    (the input class where the tie-breaking order matters)"""
+    for s in range(p.n):
+        if p.absf[s]:
+            continue
+        qs = {a: lookahead(p.P, p.R, p.absf, p.g, p.h, s, a) for a in range(p.nA) if p.av[s][a]}
+        best = max(qs.values())
+        top = [a for a in qs if qs[a] == best]
+        supp = {tuple(k for k in range(p.n) if p.P[s][a][k] != 0) for a in top}
+        if len(supp) > 1:
+            return True
+    return False
+
+
 def is_soft(case):
     return case["iterations"] <= 2 or (case.get("repr") or {}).get("max_trial_length") is not None
 
@@ -511,6 +526,106 @@ def oracle(p, case, res):
     return out
 
 
+def hops(mc):
+    """minimal number of positive-probability steps to the absorbing set, over all actions"""
+    n = mc["n"]
+    d = [0 if mc["absorbing"][s] else None for s in range(n)]
+    changed = True
+    while changed:
+        changed = False
+        for s in range(n):
+            if mc["absorbing"][s]:
+                continue
+            best = None
+            for a in mc["actions"][s]:
+                for ns, pr in mc["trans"]["%d,%d" % (s, a)]:
+                    if F(pr) != 0 and d[ns] is not None and (best is None or d[ns] + 1 < best):
+                        best = d[ns] + 1
+            if best is not None and (d[s] is None or best < d[s]):
+                d[s] = best
+                changed = True
+    return d
+
+
+def gen_routing(rng, tier):
+    """Undiscounted routing problems with integer step costs >= 1 and the hop-count heuristic
+    h(s) = -(fewest steps to a goal): admissible and monotone, and — the point — it produces EXACT Q-value
+    ties between actions with DIFFERENT successor sets (one of them still resting on optimistic heuristic
+    values), so the order in which ties are broken (res.action_orders, shuffled when
+    randomize_action_order is on) decides which closure _check_solved must verify and which action is
+    recorded and returned."""
+    mc = gen_mdp.gen_mdp(rng, nmax=5 if tier == "quick" else 7, amax=3, gamma="1", proper=True, min_states=3,
+                         uniform_actions=rng.random() < .7, quarter_rewards=False, zero_entries=rng.random() < .3)
+    for s in range(mc["n"]):
+        if mc["absorbing"][s]:
+            continue
+        for a in mc["actions"][s]:
+            for ns, pr in mc["trans"]["%d,%d" % (s, a)]:
+                if F(pr) != 0:                       # every move costs at least 1; occasional tolls
+                    mc["reward"]["%d,%d,%d" % (s, a, ns)] = str(-rng.choice([1, 1, 1, 1, 2, 3, 5]))
+    d = hops(mc)
+    # tie gadget: at up to two states give a second action a row with DIFFERENT successors whose
+    # look-ahead under the hop heuristic equals that of another action exactly; one successor may carry a toll
+    # further on (so the tied action only LOOKS as good).  Kept only if hop counts and properness survive.
+    cand = [s for s in range(mc["n"]) if not mc["absorbing"][s] and len(mc["actions"][s]) >= 2]
+    rng.shuffle(cand)
+    for s in cand[:2]:
+        import copy
+        a, b = rng.sample(mc["actions"][s], 2)
+        qa = sum(F(pr) * (F(mc["reward"].get("%d,%d,%d" % (s, a, ns), "0")) - (0 if mc["absorbing"][ns] else d[ns]))
+                 for ns, pr in mc["trans"]["%d,%d" % (s, a)] if F(pr) != 0)
+        sa = {ns for ns, pr in mc["trans"]["%d,%d" % (s, a)] if F(pr) != 0}
+        ts = [t for t in range(mc["n"]) if t != s and d[s] - 1 <= d[t] <= -qa - 1]
+        ts = [t for t in ts if t not in sa] + [t for t in ts if t in sa]
+        ts = ts[:rng.choice([1, 2, 2])]
+        if not ts or set(ts) == sa:
+            continue
+        saved = copy.deepcopy(mc)
+        for key in [k for k in mc["reward"] if k.startswith("%d,%d," % (s, b))]:
+            del mc["reward"][key]
+        ps = [F(1)] if len(ts) == 1 else [F(1, 2), F(1, 2)]
+        mc["trans"]["%d,%d" % (s, b)] = [[t, str(pp)] for t, pp in zip(ts, ps)]
+        for t in ts:
+            mc["reward"]["%d,%d,%d" % (s, b, t)] = str(qa + d[t])
+        toll = [t for t in ts if not mc["absorbing"][t]]
+        if toll and rng.random() < .6:
+            t = rng.choice(toll)
+            for key in [k for k in mc["reward"] if k.startswith("%d," % t)]:
+                mc["reward"][key] = str(F(mc["reward"][key]) - 4)
+        P, R, av, absf, ini = arrays(mc)
+        W = max_steps(P, av, absf)
+        okw = W is not None and all(w >= 0 for w in W) and all(
+            W[x] >= 1 + sum(P[x][y][k] * (0 if absf[k] else W[k]) for k in range(mc["n"]))
+            for x in range(mc["n"]) if not absf[x] for y in range(mc["nA"]) if av[x][y])
+        if not okw or hops(mc) != d or max(W) > 300:
+            mc.clear()
+            mc.update(saved)
+    h = [F(-(x or 0)) for x in d]
+    if rng.random() < .3:
+        h = [(F(rng.choice([1, 5])) if mc["absorbing"][s] else h[s]) for s in range(mc["n"])]
+    return {"mdp": mc, "heuristic": [str(x) for x in h], "kind": "routing-hops",
+            "margin": rng.choice(["1/100", "1/1000", "1/10000"]), "seed": rng.randint(0, 9 if tier == "quick" else 39),
+            "randomize": rng.random() < .8, "iterations": 4000, "max_log": 600 if tier == "quick" else 1500,
+            "repr": dict(gen_repr(rng), max_trial_length=None), "tags": ["routing"]}
+
+
+def tie_scenarios():
+    """fixed scenario of the same class: 'safe' (cost 2) and 'risky' (cost 1 + toll 5 w.p. 1/2) tie exactly
+    under the hop-count heuristic at the start state; with a shuffled action order the planner follows,
+    records and returns whichever comes first in res.action_orders, so that is the action whose closure
+    has to be residual-checked"""
+    mc = {"n": 5, "nA": 2, "actions": [[0, 1]] * 5,
+          "trans": {"0,0": [[1, "1"]], "0,1": [[2, "1/2"], [3, "1/2"]],
+                    "1,0": [[4, "1"]], "1,1": [[4, "1"]], "2,0": [[4, "1"]], "2,1": [[4, "1"]],
+                    "3,0": [[4, "1"]], "3,1": [[4, "1"]], "4,0": [[4, "1"]], "4,1": [[4, "1"]]},
+          "reward": {"0,0,1": "-1", "0,1,2": "-1", "0,1,3": "-1", "1,0,4": "-1", "1,1,4": "-1",
+                     "2,0,4": "-1", "2,1,4": "-1", "3,0,4": "-5", "3,1,4": "-5"},
+          "absorbing": [False, False, False, False, True], "init": [[0, "1"]], "gamma": "1"}
+    return [{"mdp": mc, "heuristic": ["-2", "-1", "-1", "-1", "0"], "kind": "scenario-exact-tie",
+             "margin": "1/500", "seed": seed, "randomize": True, "iterations": 4000, "max_log": 600, "tags": ["routing"]}
+            for seed in range(8)]
+
+
 def regression_cases():
     """fixed inputs on which msdm's LRTDP violated the property before the fix commits (must pass now,
     must fire if a defect returns)"""
@@ -549,13 +664,15 @@ def regression_cases():
 # ---------------------------------------------------------------------------------------------
 def run(ctx):
     tier = ctx.tier
-    ncases = 150 if tier == "quick" else 4000
+    ncases = 130 if tier == "quick" else 3500
     nchains = 24 if tier == "quick" else 500
+    nrouting = 30 if tier == "quick" else 600
     if ctx.replay_case:
         cases = [ctx.replay_case["detail"]["case"]]
     else:
         cases = [gen_case(ctx.rng, tier) for _ in range(ncases)] + regression_cases() \
-            + [gen_chain(ctx.rng, tier) for _ in range(nchains)]
+            + [gen_chain(ctx.rng, tier) for _ in range(nchains)] \
+            + [gen_routing(ctx.rng, tier) for _ in range(nrouting)] + tie_scenarios()
     shards = min(ctx.jobs, 4 if tier == "quick" else 16)
     impl = ctx.impl("c04_impl.py", {"cases": cases}, shards=shards)["results"]
     # chains (one planner object reused on several problems) are judged step by step, each step with
@@ -566,7 +683,7 @@ def run(ctx):
     cnt = {k: 0 for k in ["cases", "cert_checks", "replays", "replay_ops", "predictions", "predicted_calls",
                           "nonmonotone", "nonmonotone_cert_ok", "nonmonotone_cert_rejects", "nonadmissible_skipped",
                           "returned_policy_differs_from_labelled_greedy", "untouched_labelled_states",
-                          "recomputed_greedy_differs_from_recorded_action", "regression_cases", "replay_skipped_long", "chain_steps", "chain_later_steps", "soft_unfinished",
+                          "recomputed_greedy_differs_from_recorded_action", "regression_cases", "replay_skipped_long", "chain_steps", "chain_later_steps", "soft_unfinished", "exact_ties_distinct_successors",
                           "absorbing_initial_mass", "zero_prob_initial_entry", "converged_attr_missing",
                           "absorbing_untouched_reads_heuristic", "prediction_near_margin", "log_overflow",
                           "trials_total", "checks_failed_then_updated"]}
@@ -610,6 +727,7 @@ def run(ctx):
                   (["gamma_near_one"] if case["mdp"]["gamma"] == NEAR_ONE else []) + (["margin_ge_1"] if F(case["margin"]) >= 1 else []) + \
                   (["single_state"] if p.n == 1 else []):
             variants[tg] = variants.get(tg, 0) + 1
+        cnt["exact_ties_distinct_successors"] += int(has_structural_tie(p))
         cnt["chain_steps"] += int(steps[i] is not None)
         cnt["chain_later_steps"] += int(bool(steps[i]))
         cnt["recomputed_greedy_differs_from_recorded_action"] += int(any(
@@ -710,7 +828,8 @@ def run(ctx):
                 "zero-probability successors and initial entries, exact ties, absorbing states with non-zero self-loop rewards, "
                 "gamma in {1/2,3/4,7/8,9/10,19/20,1}) x heuristic family {constant bound, exact, exact+slack, exact with junk at "
                 "absorbing states, admissible non-monotone} (rounded UP to doubles) x margin {1e-1,1e-2,1e-4} x seed x "
-                "randomize_action_order; plus CHAINS: one LRTDP object planning on A, a perturbed B with the same labels "
+                "randomize_action_order; plus ROUTING problems (integer step costs, hop-count heuristic: exact ties between actions with "
+                "different successors) and a fixed exact-tie scenario over 8 seeds with shuffled action order; plus CHAINS: one LRTDP object planning on A, a perturbed B with the same labels "
                 "(re-drawn probabilities/rewards, same successor sets), and A again, every step judged with its own MDP; "
                 "distinct = structural hash of (MDP, heuristic, margin, seed, option, chain step); non-trivial = at least one "
                 "non-absorbing state (all cases)" % (5 if tier == "quick" else 7),
